@@ -129,6 +129,20 @@ inductive CFields where
   | cons (number : Nat) (embedded repeated zigzag : Bool) (c : Codec) (rest : CFields)
 end
 
+mutual
+/-- nesting height of a codec tree = number of `decode`/`decodeStruct` frames needed on empty input
+(used only to size the fuel of `unmarshal`; Go has no such bound) -/
+def Codec.height : Codec → Nat
+  | .ptr c => Codec.height c + 1
+  | .struct fs => CFields.height fs + 2
+  | .slice e _ _ _ => Codec.height e + 1
+  | .map _ _ _ _ _ entry => Codec.height entry + 1
+  | _ => 1
+def CFields.height : CFields → Nat
+  | .nil => 0
+  | .cons _ _ _ _ c rest => max (Codec.height c) (CFields.height rest)
+end
+
 def Codec.wire : Codec → Wire
   | .bool | .int | .int32 | .int64 | .uint | .uint32 | .uint64 => .varint
   | .fixed32 | .float32 => .fixed32
@@ -142,6 +156,12 @@ def baseTy : Ty → Ty
   | .ptr t => baseTy t
   | .named _ t => baseTy t
   | t => t
+
+/-- go: proto.pointersTo — the scalar codec chosen by a fixed32/fixed64 tag, wrapped in the pointer codec(s) of the field type -/
+def wrapPtrs : Ty → Codec → Codec
+  | .ptr t, c => .ptr (wrapPtrs t c)
+  | .named _ t, c => wrapPtrs t c
+  | _, c => c
 
 def isStructBase (t : Ty) : Bool := match baseTy t with | .struct _ => true | _ => false
 def isMessage : Ty → Bool
@@ -211,7 +231,7 @@ def fieldsOf (number : Nat) : Fields → CFields
         | _, _ => none
       | none => none
     match override with
-    | some c => .cons num false rep0 zz c (fieldsOf (number + 1) rest)
+    | some c => .cons num false rep0 zz (wrapPtrs t c) (fieldsOf (number + 1) rest)
     | none =>
       let (emb, rep, c) := fieldCodecOf num t
       .cons num emb (rep0 || rep) zz c (fieldsOf (number + 1) rest)
@@ -572,7 +592,7 @@ def marshal (t : Ty) (v : Val) : Bytes := encode (codecOf t) v { toplevel := tru
 def unmarshal (t : Ty) (b : Bytes) : Res Val :=
   if b.isEmpty then .ok (zeroOf t)
   else
-    match decode (2 * b.length + 8) (codecOf t) b (zeroOf t) { toplevel := true } with
+    match decode (2 * b.length + 8 + Codec.height (codecOf t)) (codecOf t) b (zeroOf t) { toplevel := true } with
     | .ok (v, n) => if n < b.length then .err "trailing" else .ok v
     | .err e => .err e
     | .panic e => .panic e
